@@ -4,6 +4,7 @@ import (
 	"bytes"
 	"encoding/binary"
 	"encoding/gob"
+	"io"
 	"math/big"
 	"regexp"
 
@@ -84,9 +85,33 @@ func DecodeAddresses(data []string) ([]common.Address, error) {
 	return addrs, nil
 }
 
+// pureDKGPresence records which entries of PureDKG.Commitments and PureDKG.Evals are set. gob
+// cannot represent a nil element of these slices: their element types implement GobEncoder, a
+// nil element is written as an empty value and comes back as an empty, non-nil Gammas or a zero
+// big.Int, which puredkg then takes for a commitment or evaluation it has already received.
+type pureDKGPresence struct {
+	Commitments []bool
+	Evals       []bool
+}
+
 func EncodePureDKG(p *puredkg.PureDKG) ([]byte, error) {
 	buff := bytes.Buffer{}
-	err := gob.NewEncoder(&buff).Encode(p)
+	enc := gob.NewEncoder(&buff)
+	err := enc.Encode(p)
+	if err != nil {
+		return nil, err
+	}
+	presence := pureDKGPresence{
+		Commitments: make([]bool, len(p.Commitments)),
+		Evals:       make([]bool, len(p.Evals)),
+	}
+	for i, c := range p.Commitments {
+		presence.Commitments[i] = c != nil
+	}
+	for i, e := range p.Evals {
+		presence.Evals[i] = e != nil
+	}
+	err = enc.Encode(&presence)
 	if err != nil {
 		return nil, err
 	}
@@ -94,11 +119,35 @@ func EncodePureDKG(p *puredkg.PureDKG) ([]byte, error) {
 }
 
 func DecodePureDKG(data []byte) (*puredkg.PureDKG, error) {
-	buf := bytes.NewBuffer(data)
+	dec := gob.NewDecoder(bytes.NewBuffer(data))
 	p := &puredkg.PureDKG{}
-	err := gob.NewDecoder(buf).Decode(p)
+	err := dec.Decode(p)
 	if err != nil {
 		return nil, err
+	}
+	presence := pureDKGPresence{}
+	err = dec.Decode(&presence)
+	if err == io.EOF {
+		// written before the presence record existed
+		return p, nil
+	}
+	if err != nil {
+		return nil, err
+	}
+	if len(presence.Commitments) != len(p.Commitments) || len(presence.Evals) != len(p.Evals) {
+		return nil, errors.Errorf(
+			"puredkg presence record does not match: %d/%d commitments, %d/%d evals",
+			len(presence.Commitments), len(p.Commitments), len(presence.Evals), len(p.Evals))
+	}
+	for i, set := range presence.Commitments {
+		if !set {
+			p.Commitments[i] = nil
+		}
+	}
+	for i, set := range presence.Evals {
+		if !set {
+			p.Evals[i] = nil
+		}
 	}
 	return p, nil
 }
